@@ -148,14 +148,19 @@ def gen_cases(tier, seed):
             c["dims"] = rng.choice([["time", "y", "x"], ["y", "x", "time"], ["y", "time", "x"]])
             c["dask"] = rng.random() < 0.15
         add(c)
-    # too few valid cells -> pass-through
-    for nv in (0, 1):
+    # boundary numbers of valid cells: 0, 1 -> pass-through; 2, 3, 4 -> the curve (a line through two points)
+    for nv in (0, 1, 2, 2, 3, 4):
         for hasp in (False, True):
-            n = 8
-            y = [-3000] * n
-            for j in rng.sample(range(n), nv):
-                y[j] = rng.randint(-100, 100)
-            add({"op": "fixed", "api": "kernel", "y": [str(x) for x in y], "nd": "-3000", "lam": fl(10.0), "hasp": hasp, "p": fl(0.9) if hasp else "0"})
+            for api in ("kernel", "whits_sg"):
+                n = rng.choice([4, 5, 8, 12])
+                y = [-3000] * n
+                for j in rng.sample(range(n), nv):
+                    y[j] = rng.randint(-300, 300)
+                c = {"op": "fixed", "api": api, "y": [str(x) for x in y], "nd": "-3000", "lam": fl(rng.choice([0.1, 10.0])), "hasp": hasp, "p": fl(0.9) if hasp else "0"}
+                if api == "whits_sg":
+                    c["sg"] = fl(rng.choice([0.0, 1.0]))
+                    c["dims"] = ["y", "x", "time"]
+                add(c)
     if not quick:
         for n in (200, 400):
             y = gaps(rng, series(rng, n, "season"), -3000, 0.2)
@@ -175,6 +180,10 @@ def describe(c):
 def run(tier, seed):
     rep = core.Report("C03", tier, seed)
     cases = [execute(c) for c in gen_cases(tier, seed)]
+    # hints are "available" when the source's solver calls could be observed at all in this run
+    hinted = any(c["hints"] for c in cases)
+    for c in cases:
+        c["hinted"] = bool(hinted and c["hasp"])
     # compiled and interpreted source must agree on the stored band (ties aside) - reported, decided by TLC below
     verdicts, st = core.validate_batch(MODULE, cases, per_jvm=60, timeout=6000, heap="4g")
     rep.add_stats("TraceSmooth fixed", st, len(cases))
@@ -198,6 +207,7 @@ def replay(path):
     t = v["trace"]
     c = execute({k: t[k] for k in t if k not in ("out", "hints", "out_py", "tid")})
     c["tid"] = 1
+    c["hinted"] = bool(t.get("hinted"))
     verdicts, _ = core.validate_batch(MODULE, [c], jobs=1)
     print("replayed", describe(c), "->", verdicts[1])
     if verdicts[1][0] == "REJECT":
